@@ -435,6 +435,26 @@ def option_lists(v, d=0):
     if not isinstance(v, dict) or d > 80:
         return v
     v = {k: (option_lists(x, d + 1) if isinstance(x, (dict, list)) else x) for k, x in v.items()}
+    if v.get('k') == 'call' and v.get('f') in ('collect', 'collect_vec', 'join') and v.get('recv') is not None:
+        # `opt_a.into_iter().chain(opt_b)[.chain(opt_c)]` — the same list, spelled as a chain of Option iterators
+        ops, cur = [], vt.unvar(v['recv'])
+        while isinstance(cur, dict) and cur.get('k') == 'call' and cur.get('f') == 'chain' and cur.get('recv') is not None and len(cur.get('args', [])) == 1:
+            ops.append(cur['args'][0])
+            cur = vt.unvar(cur['recv'])
+        if ops:
+            ops.append(cur)
+            ops.reverse()
+
+            def strip_iter(x):
+                x = vt.unvar(x)
+                while isinstance(x, dict) and x.get('k') == 'call' and x.get('f') in ('into_iter', 'iter') and x.get('recv') is not None and not x.get('args'):
+                    x = vt.unvar(x['recv'])
+                return x
+            items = [_opt_item(strip_iter(x)) for x in ops]
+            if all(i is not None for i in items):
+                lst = {'k': 'vecof', 'ty': 'Vec<String>', 'from_option_list': True,
+                       'items': [{'guard': ([{'k': 'if', 'c': c, 'neg': False, 'line': v.get('line')}] if c is not None else []), 'v': val, 'how': 'push', 'line': v.get('line')} for c, val in items if c != 'drop']}
+                return lst if v.get('f') != 'join' else dict(v, recv=lst)
     if v.get('k') == 'call' and v.get('f') in ('collect', 'collect_vec') and v.get('recv') is not None:
         fl = vt.unvar(v['recv'])
         if isinstance(fl, dict) and fl.get('k') == 'call' and fl.get('f') == 'flatten' and fl.get('recv') is not None:
